@@ -30,6 +30,7 @@ THEOREMS = [P + n for n in [
     "push_filter_inner_join", "push_where_into_inner_join_on", "push_on_into_joined_source_inner",
     "push_on_into_joined_source_left", "push_filter_left_join_preserved_side", "push_filter_right_join_own_source",
     "push_into_left_join_null_side_unsound", "push_below_full_join_unsound", "push_into_from_source_under_right_join_unsound",
+    "push_below_second_right_join_unsound", "last_right_join_only",
     "push_filter_into_derived", "push_guard_sound", "push_guards_present",
     "push_filter_into_derived_needs_no_limit", "push_filter_into_derived_needs_no_offset",
     "push_filter_into_derived_needs_no_window", "push_filter_into_derived_needs_single_ref",
@@ -39,6 +40,8 @@ THEOREMS = [P + n for n in [
     "merge_constant_projection_under_outer_join_unsound",
     "eliminate_left_join_on_unique_key", "unique_key_gives_at_most_one_match", "eliminate_left_join_needs_unique",
     "eliminate_inner_join_unsound", "eliminate_cross_join_single_row", "eliminate_cross_join_at_most_one_row_unsound",
+    "single_row_guard_sound", "limit1_still_accepted", "eliminate_cross_join_grouped_aggregates_unsound",
+    "eliminate_cross_join_empty_source_unsound",
     "eliminate_guards_present", "inner_join_reorder", "left_join_reorder_unsound", "reorder_guard_present",
     "prefix_preserves", "rules_table",
 ]]
@@ -151,7 +154,14 @@ def translate(chk: Check) -> str:
     ppf_txt = ast.unparse(ppf) if ppf is not None else ""
     full_guard = ("join.side == 'FULL'" in ppf_txt and "join_index.get(k, -1) > last_full_join" in ppf_txt
                   and "if last_full_join >= 0" in ppf_txt)
-    right_restrict = bool(re.search(r"if parent\.side == 'RIGHT':\n\s+selected_sources = \{k: \(node, source\)\}\n\s+break", ppf_txt))
+    # RIGHT-join rule: since b9fa271 `if parent.side == 'RIGHT' and join_index.get(k, -1) == last_right_join:`
+    # (the unrepaired variant `if parent.side == 'RIGHT':` is recognised too and reported as lastOnly = false)
+    m_new = re.search(r"if parent\.side == 'RIGHT' and join_index\.get\(k, -1\) == last_right_join:\n\s+selected_sources = \{k: \(node, source\)\}\n\s+break", ppf_txt)
+    m_old = re.search(r"if parent\.side == 'RIGHT':\n\s+selected_sources = \{k: \(node, source\)\}\n\s+break", ppf_txt)
+    right_restrict = bool(m_new or m_old)
+    right_last_only = bool(m_new) and bool(re.search(r"last_right_join = max\(\(i for i, join in enumerate\(joins\) if join\.side == 'RIGHT'\), default=-1\)", ppf_txt))
+    if ppf is not None and "parent.side" in ppf_txt and not right_restrict:
+        changed("RIGHT-join candidate restriction has an unrecognised shape")
     m = re.search(r"if join\.side in (\([^)]*\)):\n\s+continue", ppf_txt)
     on_skips = sides(m.group(1)) if m else []
     if ppf is None:
@@ -218,7 +228,35 @@ def translate(chk: Check) -> str:
     if not ok:
         changed("_should_eliminate_join: unrecognised return expression")
     hs = _fn(src("eliminate_joins.py"), "_has_single_output_row")
-    chk.cov["has_single_output_row_src"] = ast.unparse(hs.body[-1]) if hs is not None else None
+    hs_txt = "\n".join(ast.unparse(st) for st in hs.body if not (isinstance(st, ast.Expr) and isinstance(st.value, ast.Constant))) if hs is not None else ""
+    HS_NEW_HEAD = ("expression = scope.expression\n"
+                   "if not isinstance(expression, exp.Select):\n    return False\n"
+                   "if _is_limit_1(scope):\n    return True\n")
+    HS_OLD = ("return isinstance(scope.expression, exp.Select) and (all((isinstance(e.unalias(), exp.AggFunc) for e in "
+              "scope.expression.selects)) or _is_limit_1(scope) or (not scope.expression.args.get('from_')))")
+    single_row = []
+    if hs_txt == HS_OLD:
+        single_row = []  # unrepaired variant: allAgg or limit1 or noFrom
+    elif hs_txt.startswith(HS_NEW_HEAD):
+        rest = hs_txt[len(HS_NEW_HEAD):]
+        mm = re.fullmatch(r"(?:if (?P<g>[^\n]*):\n    return False\n)?if not expression\.args\.get\('from_'\):\n    return True\n"
+                          r"return (?P<ng>not expression\.args\.get\('group'\) and )?all\(\(isinstance\(e\.unalias\(\), exp\.AggFunc\) for e in expression\.selects\)\)", rest)
+        if not mm:
+            changed("_has_single_output_row: unrecognised body")
+        else:
+            for d in (mm.group("g") or "").split(" or ") if mm.group("g") else []:
+                d = d.strip("()")
+                if d == "expression.args.get('having')":
+                    single_row.append(".noHaving")
+                elif d in ("expression.args.get('where') and (not expression.args.get('from_'))", "expression.args.get('where') and not expression.args.get('from_')"):
+                    single_row.append(".noFromlessWhere")
+                else:
+                    changed(f"_has_single_output_row: unknown rejecting disjunct: {d}")
+            if mm.group("ng"):
+                single_row.append(".noGroup")
+    else:
+        changed("_has_single_output_row: unrecognised body")
+    chk.cov["has_single_output_row_guards"] = single_row
 
     # optimize_joins._is_reorderable
     ir = _fn(src("optimize_joins.py"), "_is_reorderable")
@@ -247,6 +285,7 @@ def translate(chk: Check) -> str:
         "def pushAtoms : List PushAtom := " + lst(push_atoms),
         f"def fullJoinGuard : Bool := {b(full_guard)}",
         f"def rightJoinRestrict : Bool := {b(right_restrict)}",
+        f"def rightJoinLastOnly : Bool := {b(right_last_only)}",
         f"def sidedJoinBlocks : Bool := {b(sided_blocks)}",
         "def onLoopSkips : List Side := " + lst(on_skips),
         "def mergeRejects : List MergeAtom := " + lst(rejects),
@@ -256,6 +295,7 @@ def translate(chk: Check) -> str:
         "def elimTop : List ElimAtom := " + lst(top),
         "def elimBranchA : List ElimAtom := " + lst(bra),
         "def elimBranchB : List ElimAtom := " + lst(brb),
+        "def singleRowGuards : List SingleRowAtom := " + lst(single_row),
         f"def reorderRequiresNoSide : Bool := {b(reorder)}",
         "end SqlglotModel.Generated.C03",
     ]
@@ -399,6 +439,12 @@ def push_cases(chk: Check):
                 if side != "CROSS":
                     for ot in (["x"], ["y"], ["x", "y"]):
                         cases.append({"from": src("x", fk, "x"), "joins": [[side, src("y", jk, "y")]], "on": (0, ot)})
+    # several RIGHT joins: only the last one's source may take the predicate (b9fa271); all kind combinations
+    for k1 in ["table", "derived"]:
+        for k2 in ["table", "derived"]:
+            for s1, s2 in (("RIGHT", "RIGHT"), ("RIGHT", ""), ("", "RIGHT"), ("RIGHT", "LEFT"), ("RIGHT", "FULL"), ("FULL", "RIGHT")):
+                for wt in (["x"], ["y"], ["z"]):
+                    cases.append({"from": src("x", "derived", "x"), "joins": [[s1, src("y", k1, "y")], [s2, src("z", k2, "z")]], "where": wt})
     # two joins: FULL / RIGHT in either position, predicates over each source and pairs
     sides2 = ["", "LEFT", "RIGHT", "FULL", "CROSS"]
     combos = list(itertools.product(sides2, sides2))
@@ -540,21 +586,29 @@ def correspond_merge(chk: Check):
 
 def elim_cases(chk: Check):
     inners = {
-        # name: (sql or None for a plain table, uniqueOutputs, allAgg, limit1, noFrom)
-        "table": (None, [], False, False, False),
-        "plain": ("SELECT a, b FROM y", [], False, False, False),
-        "distinct-a": ("SELECT DISTINCT a FROM y", ["a"], False, False, False),
-        "distinct-ab": ("SELECT DISTINCT a, b FROM y", ["a", "b"], False, False, False),
-        "group-a": ("SELECT a FROM y GROUP BY a", ["a"], False, False, False),
-        "group-ab-out-a": ("SELECT a FROM y GROUP BY a, b", [], False, False, False),
-        "group-a-sum": ("SELECT a, SUM(b) AS b FROM y GROUP BY a", ["a"], False, False, False),
-        "limit1": ("SELECT a, b FROM y LIMIT 1", ["a", "b"], False, True, False),
-        "limit2": ("SELECT a, b FROM y LIMIT 2", [], False, False, False),
-        "allagg": ("SELECT MAX(a) AS a, MIN(b) AS b FROM y", ["a", "b"], True, False, False),
-        "nofrom": ("SELECT 1 AS a, 2 AS b", ["a", "b"], False, False, True),
+        # name: (sql or None for a plain table, uniqueOutputs of the DISTINCT/GROUP branch, allAgg, limit1, noFrom, extra)
+        "table": (None, [], False, False, False, {"namedSelects": []}),
+        "plain": ("SELECT a, b FROM y", [], False, False, False, {}),
+        "distinct-a": ("SELECT DISTINCT a FROM y", ["a"], False, False, False, {"distinctOrGroup": True, "namedSelects": ["a"]}),
+        "distinct-ab": ("SELECT DISTINCT a, b FROM y", ["a", "b"], False, False, False, {"distinctOrGroup": True}),
+        "group-a": ("SELECT a FROM y GROUP BY a", ["a"], False, False, False, {"distinctOrGroup": True, "group": True, "namedSelects": ["a"]}),
+        "group-ab-out-a": ("SELECT a FROM y GROUP BY a, b", [], False, False, False, {"distinctOrGroup": True, "group": True, "namedSelects": ["a"]}),
+        "group-a-sum": ("SELECT a, SUM(b) AS b FROM y GROUP BY a", ["a"], False, False, False, {"distinctOrGroup": True, "group": True}),
+        "limit1": ("SELECT a, b FROM y LIMIT 1", [], False, True, False, {}),
+        "limit2": ("SELECT a, b FROM y LIMIT 2", [], False, False, False, {}),
+        "allagg": ("SELECT MAX(a) AS a, MIN(b) AS b FROM y", [], True, False, False, {}),
+        "nofrom": ("SELECT 1 AS a, 2 AS b", [], False, False, True, {}),
+        # 030ac60: these must no longer count as single-row (extra flags: group / having / where)
+        "allagg-group": ("SELECT MAX(a) AS a, MIN(b) AS b FROM y GROUP BY a", [], True, False, False, {"distinctOrGroup": True, "group": True}),
+        "allagg-having": ("SELECT MAX(a) AS a, MIN(b) AS b FROM y HAVING MAX(a) > 5", [], True, False, False, {"having": True}),
+        "allagg-where": ("SELECT MAX(a) AS a, MIN(b) AS b FROM y WHERE b > 0", [], True, False, False, {"where": True}),
+        "nofrom-where": ("SELECT 1 AS a, 2 AS b WHERE FALSE", [], False, False, True, {"where": True}),
+        "limit1-where": ("SELECT a, b FROM y WHERE b > 0 LIMIT 1", [], False, True, False, {"where": True}),
     }
     out = []
-    for iname, (isql, uniq, allagg, lim1, nofrom) in inners.items():
+    for iname, spec in inners.items():
+        isql, uniq, allagg, lim1, nofrom = spec[:5]
+        extra = spec[5] if len(spec) > 5 else {}
         has_b = isql is None or " b" in isql.split(" FROM ")[0] or "AS b" in isql
         for side, kw in (("LEFT", "LEFT JOIN"), ("", "JOIN"), ("", "CROSS JOIN"), ("RIGHT", "RIGHT JOIN")):
             for keys in ([], ["a"], ["a", "b"]):
@@ -571,7 +625,7 @@ def elim_cases(chk: Check):
                     if keys:
                         sql += " ON " + " AND ".join(f"x.{k} = y.{k}" for k in keys)
                     shape_ = {"isScope": isql is not None, "used": used, "side": side, "hasOn": bool(keys),
-                              "uniqueOutputs": uniq, "joinKeys": keys, "allAgg": allagg, "limit1": lim1, "noFrom": nofrom}
+                              "uniqueOutputs": uniq, "joinKeys": keys, "allAgg": allagg, "limit1": lim1, "noFrom": nofrom, "namedSelects": ["a", "b"], **extra}
                     out.append((iname, sql, shape_))
     return out
 
